@@ -67,3 +67,196 @@ fn c09_type_codes() {
     assert!(MessageIntegritySha256::get_type().as_u16() == T_SHA);
     assert!(Fingerprint::get_type().as_u16() == T_FP);
 }
+
+// =============================================================================================
+// C18 / C09 / C03 at message level: the real MessageDecoder::decode on a buffer with a fixed
+// slot layout and symbolic contents.
+//   layout (68 bytes): header | slot0 (8) | block (24) | slot1 (8) | slot2 (8)
+//   slot  = type in S = {FINGERPRINT 0x8028, PRIORITY 0x0024, unknown 0x7F02, unknown 0xFF03},
+//           length 4, 4 symbolic value bytes
+//   block = type in {MESSAGE-INTEGRITY 0x0008 (length 20), unknown 0x7F04 (length 20)}
+// The registry is the 4-kind restriction of the generated one (agreement on S asserted below).
+// =============================================================================================
+use crate::attributes::{AttributeType as AT, DecodeAttributeValue};
+use crate::registry::DecoderHandler;
+
+fn h_mi(ctx: AttributeDecoderContext) -> Result<(StunAttribute, usize), StunError> {
+    let (v, s) = <MessageIntegrity as DecodeAttributeValue>::decode(ctx)?;
+    Ok((v.into(), s))
+}
+fn h_sha(ctx: AttributeDecoderContext) -> Result<(StunAttribute, usize), StunError> {
+    let (v, s) = <MessageIntegritySha256 as DecodeAttributeValue>::decode(ctx)?;
+    Ok((v.into(), s))
+}
+fn h_fp(ctx: AttributeDecoderContext) -> Result<(StunAttribute, usize), StunError> {
+    let (v, s) = <Fingerprint as DecodeAttributeValue>::decode(ctx)?;
+    Ok((v.into(), s))
+}
+fn h_prio(ctx: AttributeDecoderContext) -> Result<(StunAttribute, usize), StunError> {
+    let (v, s) = <crate::attributes::ice::Priority as DecodeAttributeValue>::decode(ctx)?;
+    Ok((v.into(), s))
+}
+static H_MI: DecoderHandler = h_mi;
+static H_SHA: DecoderHandler = h_sha;
+static H_FP: DecoderHandler = h_fp;
+static H_PRIO: DecoderHandler = h_prio;
+fn registry_small(t: AT) -> Option<&'static DecoderHandler> {
+    match t.as_u16() {
+        0x0008 => Some(&H_MI),
+        0x001c => Some(&H_SHA),
+        0x8028 => Some(&H_FP),
+        0x0024 => Some(&H_PRIO),
+        _ => None,
+    }
+}
+
+#[kani::proof]
+#[kani::unwind(42)]
+fn c18_registry_small_agrees() {
+    use crate::verif_registry::registry_from_source;
+    for t in [0x0008u16, 0x001c, 0x8028, 0x0024] {
+        assert!(registry_from_source(AT::from(t)).is_some(), "kind registered in the working tree");
+    }
+    for t in [0x7f02u16, 0xff03, 0x7f04] {
+        assert!(registry_from_source(AT::from(t)).is_none(), "unknown code really is unknown");
+    }
+}
+
+const L: usize = 68;
+struct Wire {
+    buf: [u8; L],
+    types: [u16; 4], // wire order: slot0, block, slot1, slot2
+}
+fn slot_type() -> u16 {
+    let k: u8 = kani::any();
+    kani::assume(k < 4);
+    match k {
+        0 => 0x8028,
+        1 => 0x0024,
+        2 => 0x7f02,
+        _ => 0xff03,
+    }
+}
+fn any_wire() -> Wire {
+    let mut buf: [u8; L] = kani::any();
+    put_header(&mut buf, (L - 20) as u16);
+    let block_t: u16 = if kani::any() { 0x0008 } else { 0x7f04 };
+    let types = [slot_type(), block_t, slot_type(), slot_type()];
+    let offs = [20usize, 28, 52, 60];
+    let lens = [4u8, 20, 4, 4];
+    let mut i = 0;
+    while i < 4 {
+        buf[offs[i]] = (types[i] >> 8) as u8;
+        buf[offs[i] + 1] = types[i] as u8;
+        buf[offs[i] + 2] = 0;
+        buf[offs[i] + 3] = lens[i];
+        i += 1;
+    }
+    Wire { buf, types }
+}
+fn kind(t: u16) -> u8 {
+    if t == T_MI { 1 } else if t == T_SHA { 2 } else if t == T_FP { 3 } else { 0 }
+}
+/// C09 rule on the four wire attributes: which are admitted
+fn admitted(types: &[u16; 4]) -> [bool; 4] {
+    let (mut mi, mut sha, mut fp) = (false, false, false);
+    let mut out = [false; 4];
+    let mut i = 0;
+    while i < 4 {
+        let k = kind(types[i]);
+        out[i] = match k {
+            1 => !(mi || sha || fp),
+            2 => !(sha || fp),
+            3 => !fp,
+            _ => !(mi || sha || fp),
+        };
+        match k {
+            1 => mi = true,
+            2 => sha = true,
+            3 => fp = true,
+            _ => {}
+        }
+        i += 1;
+    }
+    out
+}
+
+/// OPT bits: 1 = context present, 2 = not_ignore, 4 = with_unknown_data
+fn mk_decoder<const OPT: u8>() -> MessageDecoder {
+    if OPT & 1 == 0 {
+        return MessageDecoderBuilder::default().build();
+    }
+    let mut b = DecoderContextBuilder::default();
+    if OPT & 2 != 0 {
+        b = b.not_ignore();
+    }
+    if OPT & 4 != 0 {
+        b = b.with_unknown_data();
+    }
+    MessageDecoderBuilder::default().with_context(b.build()).build()
+}
+
+fn c18_decode_opt<const OPT: u8>() {
+    let w = any_wire();
+    let dec = mk_decoder::<OPT>();
+    let r = dec.decode(&w.buf);
+    let adm = if OPT & 2 != 0 { [true; 4] } else { admitted(&w.types) };
+    match &r {
+        Ok((m, size)) => {
+            assert!(*size == L, "C03: size = 20 + length field");
+            let mut want = 0usize;
+            let mut i = 0;
+            while i < 4 {
+                if adm[i] {
+                    want += 1;
+                }
+                i += 1;
+            }
+            assert!(m.attributes().len() == want, "C09/C18: exactly the admitted wire attributes are returned (all of them with not_ignore; same without a context as with the default context)");
+            // order and kinds: the j-th returned attribute is the j-th admitted wire attribute
+            let mut j = 0usize;
+            let mut i = 0;
+            while i < 4 {
+                if adm[i] {
+                    let a = &m.attributes()[j];
+                    assert!(a.attribute_type().as_u16() == w.types[i], "C09/C18: wire order preserved");
+                    if let StunAttribute::Unknown(u) = a {
+                        let off = [24usize, 32, 56, 64][i];
+                        match u.attribute_data() {
+                            Some(d) => {
+                                assert!(OPT & 4 != 0, "C18: raw data only when asked for");
+                                assert!(d.len() == if i == 1 { 20 } else { 4 } && d[0] == w.buf[off] && d[3] == w.buf[off + 3], "C18: exactly the raw value bytes");
+                            }
+                            None => assert!(OPT & 4 == 0, "C18: with_unknown_data keeps the raw value bytes"),
+                        }
+                    }
+                    j += 1;
+                }
+                i += 1;
+            }
+        }
+        Err(_) => assert!(false, "C03/C18: a well-formed message decodes under every option set (no validation requested)"),
+    }
+    kani::cover!(adm[3] && !adm[2]);
+    kani::cover!(!adm[1]);
+    std::mem::forget(r);
+    std::mem::forget(dec);
+}
+
+macro_rules! c18_inst {
+    ($($name:ident = $o:expr;)*) => {$(
+        #[kani::proof]
+        #[kani::unwind(14)]
+        #[kani::stub(alloc::fmt::format, nofmt)]
+        #[kani::stub(<crate::types::TransactionId as std::default::Default>::default, tid_any)]
+        #[kani::stub(crate::registry::get_handler, registry_small)]
+        fn $name() { c18_decode_opt::<$o>(); }
+    )*};
+}
+c18_inst! {
+    c18_decode_noctx = 0;
+    c18_decode_default_ctx = 1;
+    c18_decode_not_ignore = 3;
+    c18_decode_unknown_data = 5;
+    c18_decode_not_ignore_unknown_data = 7;
+}
